@@ -257,6 +257,7 @@ class Interp:
             'math.floor': __import__('math').floor,
             'logging.getLogger': lambda *a: _NullLogger(),
             'collections.defaultdict': __import__('collections').defaultdict,
+            'more_itertools.powerset': lambda xs: (lambda s_: __import__('itertools').chain.from_iterable(__import__('itertools').combinations(s_, r) for r in range(len(s_) + 1)))(list(xs)),
             'more_itertools.consume': lambda it_, n=None: [None for _ in it_] and None,
             'typing.cast': lambda t, v: v,
             'tp.cast': lambda t, v: v,
